@@ -580,6 +580,16 @@ func ctxLayers(tier string) []Layer {
 						if msg := judgeFull(Observe(z3), pv, false, ModelMul(lo.V, half.V, uint32(want), m), true); msg != "" {
 							c.Fail(key+" Mul at MinExp", msg)
 						}
+						// a difference that underflows: an inexact zero takes the sign of the exact result in every mode
+						hi := mkInt64(15, 0, 3, 0)
+						hi.Exp, hi.V.E10 = MinExp, MinExp-DW
+						lw := mkInt64(14, 0, 3, 0)
+						lw.Exp, lw.V.E10 = MinExp, MinExp-DW
+						z4 := new(Dec)
+						pv, _ = protect(func() { cx.Sub(z4, hi.Build(), lw.Build()) })
+						if msg := judgeFull(Observe(z4), pv, false, ModelSub(hi.V, lw.V, uint32(want), m), true); msg != "" {
+							c.Fail(key+" Sub underflowing at MinExp", msg)
+						}
 						z2 := buildPre(preLonger, 3, ToZero)
 						pv, _ = protect(func() { cx.Add(z2, a.Build(), b.Build()) })
 						exp = ModelAdd(a.V, b.V, uint32(want), m)
